@@ -300,7 +300,28 @@ func c09Fill(e Ev, st *c09State) {
 func (c09) Exec(h []Ev) []Ev {
 	st := &c09State{}
 	dead := false
+	// a second signal, built and encoded before the history starts, lives side by side: building and encoding the
+	// signal under test must leave its getters and its encoded bytes alone, and it must still encode to the same bytes
+	var by scte35.SCTE35
+	var byData, byObs string
+	guard(func() {
+		by = scte35.CreateSCTE35()
+		c := scte35.CreateTimeSignalCommand()
+		c.SetHasPTS(true)
+		by.SetCommandInfo(c)
+		by.SetPTS(123456789)
+		d := scte35.CreateSegmentationDescriptor()
+		d.SetEventID(77)
+		d.SetTypeID(scte35.SegDescType(0x30))
+		d.SetHasProgramSegmentation(true)
+		d.SetUPIDType(scte35.SegUPIDType(9))
+		d.SetUPID([]byte("bystander"))
+		by.SetDescriptors([]scte35.SegmentationDescriptor{d})
+		byData = string(by.UpdateData())
+		byObs = jsonOf(obsSig(by))
+	})
 	for i, e := range h {
+		e["bystander_same"] = true
 		if dead {
 			e["panic"] = "skipped-after-panic"
 			continue
@@ -386,6 +407,13 @@ func (c09) Exec(h []Ev) []Ev {
 				c09Set(e, st)
 				e["after"] = obsSig(s)
 				e["data_after"] = B(s.Data())
+			}
+			if by != nil {
+				same := string(by.Data()) == byData && jsonOf(obsSig(by)) == byObs
+				if i == len(h)-1 {
+					same = same && string(by.UpdateData()) == byData
+				}
+				e["bystander_same"] = same
 			}
 		})
 		if GS(e["panic"]) != "" {
